@@ -319,7 +319,7 @@ Definition sub (c : nat * list nat) : list N * list nat :=
                          defs='Import String.\n' + defs, nontrivial=lambda r: r[2] >= 1),
     ]
     from concurrent.futures import ThreadPoolExecutor
-    with ThreadPoolExecutor(len(jobs)) as ex:          # the coqc runs are independent processes
+    with ThreadPoolExecutor(4) as ex:                  # the coqc runs are independent processes
         list(ex.map(lambda j: j(), jobs))
 
 
